@@ -67,7 +67,9 @@ func (j *JApi) ToJsonIndent() ([]byte, error) {
 	return j.Catalog().ToJsonIndent()
 }
 
-func (j *JApi) ToOpenAPIJson() ([]byte, error) {
+func (j *JApi) ToOpenAPIJson() (b []byte, err error) {
+	defer recoverOpenAPIPanic(&b, &err)
+
 	o, err := openapi.NewOpenAPI(j.Catalog())
 	if err != nil {
 		return nil, err
@@ -75,10 +77,21 @@ func (j *JApi) ToOpenAPIJson() ([]byte, error) {
 	return json.Marshal(o)
 }
 
-func (j *JApi) ToOpenAPIJsonIndent() ([]byte, error) {
+func (j *JApi) ToOpenAPIJsonIndent() (b []byte, err error) {
+	defer recoverOpenAPIPanic(&b, &err)
+
 	o, err := openapi.NewOpenAPI(j.Catalog())
 	if err != nil {
 		return nil, err
 	}
 	return json.MarshalIndent(o, "", "  ")
+}
+
+// recoverOpenAPIPanic turns a panic of the OpenAPI conversion (a schema construct the converter cannot express, such as
+// additionalProperties "decimal" or a user type of notation "empty") into the error of the export.
+func recoverOpenAPIPanic(b *[]byte, err *error) {
+	if r := recover(); r != nil {
+		*b = nil
+		*err = fmt.Errorf("the project cannot be converted to OpenAPI: %v", r)
+	}
 }
